@@ -462,7 +462,9 @@ pub fn run(ctx: &Ctx) -> PropReport {
     rep.push(run_sharded(ctx, "closed-form", ctx.tier.pick(80_000, 1_000_000), || el_strategy(true), judge_closed, |p| json!({"program": ItemSpec::List(render(p)).to_json(), "text": ItemSpec::List(render(p)).render()})));
     rep.push(run_sharded(ctx, "single-step", ctx.tier.pick(150_000, 1_500_000), single_strategy, |(n, s, _): &(String, StateSpec, bool)| judge_single(n, s), |(n, s, _)| json!({"instruction": n, "state": s.to_json(), "brief": s.brief()})));
     rep.push(run_sharded(ctx, "random-programs", ctx.tier.pick(60_000, 600_000), random_program, judge_random, |s| json!({"state": s.to_json(), "program": s.exec.iter().map(|x| x.render()).collect::<Vec<_>>().join(" ")})));
-    rep.push(crate::props::incontext::run(ctx, ctx.tier.pick(40_000, 600_000)));
+    for r in crate::props::incontext::run_all(ctx, ctx.tier.pick(40_000, 600_000)) {
+        rep.push(r);
+    }
     rep
 }
 
